@@ -372,9 +372,28 @@ func Select(a, i *Term) *Term {
 			a = a.Args[0]
 			continue
 		}
+		if distinctRefs(i, j) {
+			a = a.Args[0]
+			continue
+		}
 		break
 	}
 	return mk("select", a.S.E, a, i)
+}
+
+// distinctRefs: references that are different by construction: an object
+// allocated by the function under verification ("new!N" equals the allocation
+// frontier at that moment) differs from every input reference, from every
+// constant reference and from every other allocation.
+func distinctRefs(a, b *Term) bool {
+	isNew := func(t *Term) bool { return t.Op == "var" && strings.HasPrefix(t.Name, "new!") }
+	isOld := func(t *Term) bool {
+		return (t.Op == "var" && (strings.HasPrefix(t.Name, "in.") || strings.HasPrefix(t.Name, "fv."))) || (t.IsConst() && t.S.K == SInt)
+	}
+	if isNew(a) && isNew(b) {
+		return a.Name != b.Name
+	}
+	return (isNew(a) && isOld(b)) || (isNew(b) && isOld(a))
 }
 
 func Store(a, i, v *Term) *Term {
@@ -708,12 +727,26 @@ func termSize(t *Term) int {
 // groundTerms collects candidate instantiation terms of Int sort occurring as
 // array indices or UF arguments (used for hand instantiation of quantified
 // hypotheses).
+func addIndexCand(ix *Term, out map[string]*Term, bound map[string]int) {
+	if ix.S.K != SInt || !closed(ix, bound) {
+		return
+	}
+	out[ix.String()] = ix
+	if ix.Op == "+" {
+		var sum []*Term
+		addSummands(ix, &sum)
+		for _, a := range sum {
+			if !a.IsConst() && (a.Op == "app" || a.Op == "select" || (a.Op == "var" && strings.HasPrefix(a.Name, "sk."))) {
+				out[a.String()] = a
+			}
+		}
+	}
+}
+
 func indexTerms(t *Term, out map[string]*Term, bound map[string]int) {
 	switch t.Op {
 	case "select", "store":
-		if t.Args[1].S.K == SInt && closed(t.Args[1], bound) {
-			out[t.Args[1].String()] = t.Args[1]
-		}
+		addIndexCand(t.Args[1], out, bound)
 	case "mod", "div":
 		if t.Args[0].S.K == SInt && closed(t.Args[0], bound) {
 			out[t.Args[0].String()] = t.Args[0]
